@@ -121,10 +121,19 @@ static int tglfMode(int count, uint64_t seed, const char *outFile)
         int n = rng.range(2, 12);
         std::vector<Node_SP> ns;
         std::map<id_type, int> ext;
+        // external ids: 0 all nodes numbered 0..n-1; 1 none; 2 the first k nodes carry (internal id + delta), the others none -- as when
+        // a graph was read from a file and nodes were added through the API afterwards
+        int idMode = rng.range(0, 3) == 0 ? 2 : (rng.range(0, 5) == 0 ? 1 : 0);
+        int kExt = rng.range(1, n - 1), delta = rng.range(-1, 2);
+        std::vector<std::vector<double> > geo;
         for (int i = 0; i < n; i++) {
-            Node_SP nd = G.addNode(rng.range(-40, 40) / 2.0, rng.range(-40, 40) / 2.0, rng.range(1, 8), rng.range(1, 8));
-            nd->setExternalId(i);
+            // distinct centres (nodes are named by their geometry after the round trip)
+            double x = 3.0 * i + rng.range(0, 4) / 2.0 - 20, y = rng.range(-40, 40) / 2.0, w = rng.range(1, 8), h = rng.range(1, 8);
+            Node_SP nd = G.addNode(x, y, w, h);
+            if (idMode == 0) nd->setExternalId(i);
+            else if (idMode == 2 && i < kExt) nd->setExternalId((int)nd->id() + delta);
             ns.push_back(nd); ext[nd->id()] = i;
+            geo.push_back({x, y, w, h});
         }
         std::set<std::pair<int, int> > used;
         int m = rng.range(0, 2 * n);
@@ -154,10 +163,17 @@ static int tglfMode(int count, uint64_t seed, const char *outFile)
         bool thrown = false; std::string what;
         try {
             j.k("before"); graphJson(j, G, ext);
-            std::string text = G.writeTglf(true);
+            std::string text = G.writeTglf(idMode != 1 || rng.coin());
             Graph_SP H = buildGraphFromTglf(text);
             std::map<id_type, int> ext2;
-            for (auto &kv : H->getNodeLookup()) ext2[kv.first] = kv.second->getExternalId();
+            std::set<int> taken; int strangers = 0;
+            for (auto &kv : H->getNodeLookup()) {
+                Avoid::Point c = kv.second->getCentre(); dimensions dm = kv.second->getDimensions();
+                int who = -1;
+                for (int i = 0; i < n; i++) if (!taken.count(i) && fabs(geo[i][0] - c.x) < 1e-6 && fabs(geo[i][1] - c.y) < 1e-6 && fabs(geo[i][2] - dm.first) < 1e-6 && fabs(geo[i][3] - dm.second) < 1e-6) { who = i; break; }
+                if (who < 0) who = 1000 + strangers++; else taken.insert(who);      // a node that matches nothing that was written
+                ext2[kv.first] = who;
+            }
             j.k("after"); graphJson(j, *H, ext2);
         } catch (std::exception &e) { thrown = true; what = e.what(); }
         catch (vpsc::CriticalFailure &f) { thrown = true; what = f.what(); }
